@@ -190,28 +190,46 @@ def applyStmt (ct : ConvTable) (db : Db) : Stmt → Except Err Db
         .ok { db with orig := some { t with schema := { t.schema with indexes := t.schema.indexes.filter (·.name != n) } } }
       else .error .noSuchIndexDb
 
-/-! ## connection: pysqlite's legacy transaction control
+/-! ## connection: who opens a transaction
 
-`sqlite3` (legacy `isolation_level`) opens a transaction implicitly before DML only; DDL neither
-opens nor commits one.  SQLAlchemy's `Connection.begin()` emits nothing on this driver, its
-`commit()/rollback()` end whatever the driver opened. -/
+Three ways a SQLAlchemy connection to SQLite runs (all validated against the real driver):
+
+* **pysqlite legacy** (default): `sqlite3` opens a transaction implicitly before DML only; DDL neither opens nor
+  commits one; SQLAlchemy's `Connection.begin()` emits nothing, its `commit()/rollback()` end whatever the
+  driver opened.  (`implicitBegin = true`, starts outside a transaction.)
+* **AUTOCOMMIT** (`isolation_level="AUTOCOMMIT"`): every statement is committed on its own, `rollback()` undoes
+  nothing.  (`implicitBegin = false`, starts outside a transaction.)
+* **the BEGIN recipe** (driver `isolation_level=None` + `BEGIN` emitted on SQLAlchemy's `begin` event): the whole
+  scope is one real transaction, DDL included.  (starts inside a transaction.) -/
+
+inductive ConnMode where
+  | pysqliteLegacy | autocommit | explicitBegin
+  deriving DecidableEq, Repr
 
 structure Conn where
   committed : Db
   working : Db
   inTxn : Bool
+  /-- the driver opens a transaction before DML (pysqlite legacy mode) -/
+  implicitBegin : Bool := true
   deriving Repr
 
 def Conn.fresh (db : Db) : Conn := { committed := db, working := db, inTxn := false }
 
+def Conn.start (mode : ConnMode) (db : Db) : Conn :=
+  match mode with
+  | .pysqliteLegacy => { committed := db, working := db, inTxn := false, implicitBegin := true }
+  | .autocommit => { committed := db, working := db, inTxn := false, implicitBegin := false }
+  | .explicitBegin => { committed := db, working := db, inTxn := true, implicitBegin := false }
+
 /-- execute one statement; a failing DML statement has already opened the implicit transaction -/
 def Conn.exec (ct : ConvTable) (c : Conn) (s : Stmt) : Conn × Option Err :=
-  let c1 := if s.isDml then { c with inTxn := true } else c
+  let c1 := if s.isDml && c.implicitBegin then { c with inTxn := true } else c
   match applyStmt ct c1.working s with
   | .error e => (c1, some e)
   | .ok db => (if c1.inTxn then { c1 with working := db } else { c1 with working := db, committed := db }, none)
 
-def Conn.commit (c : Conn) : Conn := { committed := c.working, working := c.working, inTxn := false }
-def Conn.rollback (c : Conn) : Conn := { committed := c.committed, working := c.committed, inTxn := false }
+def Conn.commit (c : Conn) : Conn := { c with committed := c.working, working := c.working, inTxn := false }
+def Conn.rollback (c : Conn) : Conn := { c with committed := c.committed, working := c.committed, inTxn := false }
 
 end Model.Batch
